@@ -8,6 +8,9 @@ def run(tier, seed):
         arrayhist.run_family(run, 'C08', tier, seed, family)
     from .. import tracecheck
     tracecheck.run_random(run, 'C08', 2000 if tier == 'thorough' else 120, 60 if tier == 'thorough' else 40, seed)
+    if tier == 'thorough':
+        from .. import testtrace
+        testtrace.run_repo_tests(run, 'C08')
     run.cov['rule'] = ('Array: every macro-edge of the TLC state graph of spec/Array.tla (data and metadata alphabets) is '
                        'executed on the real code; README bytes must equal the text regenerated from a fresh handle and '
                        'the parsed stamp must equal the spec stamp.')
